@@ -219,7 +219,7 @@ theorem sendOver_nofail (s : State) (c : Circuit) (a : Addr) (p : Bytes) (h : s.
   simp [sendOver, okCalls, nextFail, h, hc]
 
 /-- ops other than `send` and `notify` are silent, and only `send` touches the queue -/
-theorem step_events_nonsend (s : State) (o : Op) (hs : ∀ a p, o ≠ .send a p) (hn : ∀ b, o ≠ .notify b) :
+theorem step_events_nonsend (s : State) (o : Op) (hs : ∀ a p, o ≠ .send a p) (hn : ∀ b p, o ≠ .notify b p) :
     (step s o).2 = [] := by
   cases o <;> simp [step] at * <;> (try split) <;> simp
 
@@ -300,9 +300,9 @@ theorem step_rawOf (s : State) (o : Op) : rawOf (step s o).2 = plainOf s.setting
     · simpa using rawOf_drops _ true
     · have := rawOf_drops (dequeAppend s.cap s.queue (a, p)).2 true
       simp [rawOf] at this ⊢
-  | notify b =>
+  | notify b q =>
     simp only [step, plainOf, notify]
-    induction (s.listeners.filter (fun l => l.anonymize.getD false == b)) with
+    induction ((s.listenersFor q).filter (fun l => l.anonymize.getD false == b)) with
     | nil => rfl
     | cons y ys ih => simp [rawOf]
   | overlay cid b => cases b <;> simp [step, plainOf, rawOf]
@@ -450,6 +450,52 @@ theorem closedFor_request (cid : Nat) (s : State) (h : cid < s.comm.nextId) :
   by_cases h' : c0.cid = cid
   · simp [h']
   · simp only [h', if_false] at hcid
+
+/-! ### listeners -/
+
+theorem dedupL_sub (ls : List Listener) (l : Listener) (h : l ∈ dedupL ls) : l ∈ ls := by
+  induction ls with
+  | nil => simp [dedupL] at h
+  | cons x xs ih =>
+    simp only [dedupL] at h
+    split at h
+    · exact List.mem_cons_of_mem _ (ih h)
+    · rcases List.mem_cons.1 h with rfl | h
+      · exact List.mem_cons_self
+      · exact List.mem_cons_of_mem _ (ih h)
+
+theorem dedupL_has_lid (ls : List Listener) (l : Listener) (h : l ∈ ls) : ∃ m ∈ dedupL ls, m.lid = l.lid := by
+  induction ls with
+  | nil => simp at h
+  | cons x xs ih =>
+    simp only [dedupL]
+    rcases List.mem_cons.1 h with rfl | h
+    · split
+      · rename_i hany
+        simp only [List.any_eq_true, decide_eq_true_eq] at hany
+        exact hany
+      · exact ⟨l, List.mem_cons_self, rfl⟩
+    · obtain ⟨m, hm, hl⟩ := ih h
+      split
+      · exact ⟨m, hm, hl⟩
+      · exact ⟨m, List.mem_cons_of_mem _ hm, hl⟩
+
+theorem dedupL_nodup (ls : List Listener) : ((dedupL ls).map (·.lid)).Nodup := by
+  induction ls with
+  | nil => simp [dedupL]
+  | cons x xs ih =>
+    simp only [dedupL]
+    split
+    · exact ih
+    · rename_i hany
+      simp only [List.map_cons, List.nodup_cons]
+      refine ⟨?_, ih⟩
+      intro hmem
+      apply hany
+      simp only [List.mem_map] at hmem
+      obtain ⟨m, hm, hl⟩ := hmem
+      simp only [List.any_eq_true, decide_eq_true_eq]
+      exact ⟨m, hm, hl⟩
 
 /-- lifting a per-step fact that holds in every state to every entry of a trace -/
 theorem trace_forall (P : State → Op → List Event → Prop) (hP : ∀ s o, P s o (step s o).2) :
